@@ -125,13 +125,14 @@ class Type:
             return "void"
         if self.kind == "prim":
             return self.name
+        # globally qualified: inside a class with a private base the injected class name of that base is inaccessible
         if self.kind == "enum":
-            return self.ref["qname"]
+            return "::" + self.ref["qname"]
         if self.kind == "cstr":
             return "const char *"
         if self.kind == "str":
             return "std::string" if self.mode == 0 else "const std::string &"
-        q = self.ref["qname"]
+        q = "::" + self.ref["qname"]
         return {0: q, 1: q + " &", 2: "const " + q + " &", 3: q + " *", 4: "const " + q + " *"}[self.mode]
 
     def overload_key(self):
@@ -205,7 +206,7 @@ def _default_for(t, dv, lib):
         return ["0", "-1", "42", "(1 << 4)", "0x7f"][dv % 5]
     if t.kind == "enum":
         vals = t.ref["values"]
-        return t.ref["value_qual"] + vals[dv % len(vals)][0]
+        return "::" + t.ref["value_qual"] + vals[dv % len(vals)][0]
     if t.kind == "cstr":
         return ['"dflt"', '"a\\"b"', '""', "nullptr", '"x\\\\y"', '"caf\\xc3\\xa9"'][dv % 6]
     if t.kind == "str":
@@ -247,6 +248,7 @@ def build(raw, opts=None):
     """normalise raw -> Lib"""
     opts = opts or {}
     lib = Lib()
+    lib.impl_mode = bool(opts.get("impl"))
     want_ns = raw.get("ns") and not opts.get("no_namespace")
     nsname = "nsp" if want_ns else None
     lib.ns = nsname
@@ -298,6 +300,8 @@ def build(raw, opts=None):
             idx = lib.classes.index(c)
             if mode in (0,) and (idx > cur_class_index or not by_value_ok):
                 mode = 2         # by value needs a complete, earlier class
+            if mode == 0 and lib.impl_mode and c.get("dtor_vis", "public") not in ("public", "published"):
+                mode = 2         # the definitions copy by-value objects, which needs an accessible destructor
             return Type("obj", mode=mode, ref=c)
         raise ValueError(rt)
 
@@ -322,6 +326,10 @@ def build(raw, opts=None):
             lib.features.add("class.base.virtual")
         have_dtor = False
         prop_n = 0
+        for rm in rc["members"]:
+            if rm["m"] == "dtor":
+                c["dtor_vis"] = VIS[rm["vis"]]
+                break
         for rm in rc["members"]:
             m = rm["m"]
             if m == "enum":
@@ -371,6 +379,9 @@ def build(raw, opts=None):
                 j = rm["j"] % len(base_m["ovs"])
                 if any(x["kind"] == "method" and x.get("overrides") == (base_m["id"], j) for x in c["members"]):
                     continue
+                bts = list(base_m["ovs"][j]["params"]) + [base_m["ovs"][j]["ret"]]
+                if any(t.kind == "enum" and t.ref.get("cls") is not None and t.ref["vis"] not in ("published", "public") for t in bts):
+                    continue          # the base's non-public nested enum cannot be named in the derived class
                 e = lib.ent(kind="method", cls=c, vis=VIS[rm["vis"]], static=False, const=base_m.get("const", False), virt="virtual",
                             file=c["file"], doc=0, overrides=(base_m["id"], j), base_method=base_m)
                 e["name"] = base_m["name"]
@@ -409,7 +420,7 @@ def build(raw, opts=None):
                     t = Type("obj", mode=3, ref=t.ref)          # no reference members
                 if t.kind == "str":
                     t = Type("str", mode=0)
-                if t.kind == "obj" and t.mode == 0 and (t.ref is c or t.ref.get("abstract") or lib.classes.index(t.ref) >= ci):
+                if t.kind == "obj" and t.mode == 0 and (t.ref is c or t.ref.get("abstract") or lib.classes.index(t.ref) >= ci or lib.impl_mode):
                     t = Type("obj", mode=3, ref=t.ref)
                 e = lib.ent(kind="field", cls=c, vis=VIS[rm["vis"]], t=t, static=rm["static"], const=rm["const"] and rm["static"] and t.kind == "prim" and t.name in INTLIKE,
                             file=c["file"])
@@ -421,6 +432,8 @@ def build(raw, opts=None):
                     t = Type("obj", mode=3, ref=t.ref)
                 if t.kind == "obj" and t.mode == 2:
                     t = Type("obj", mode=4, ref=t.ref)
+                if lib.impl_mode and t.kind == "obj" and t.ref is not c:
+                    t = Type("prim", "int")           # a getter can only hand out an object it has: itself
                 prop_n += 1
                 g = lib.ent(kind="method", cls=c, vis="published", static=False, const=True, virt="", file=c["file"], doc=0, role="getter")
                 g["name"] = "get_p%d" % g["id"]
@@ -479,6 +492,16 @@ def build(raw, opts=None):
                              "ret": ret}]
                 c["members"].append(e)
                 lib.features.add("api.operator")
+        if c.get("abstract"):
+            # the class turned out to be abstract: it cannot be passed or returned by value by its own members
+            for x in c["members"]:
+                if x["kind"] == "method":
+                    for ov in x["ovs"]:
+                        if ov["ret"].kind == "obj" and ov["ret"].mode == 0 and ov["ret"].ref is c:
+                            ov["ret"] = Type("obj", mode=3, ref=c)
+                        ov["params"] = [Type("obj", mode=2, ref=c) if (p.kind == "obj" and p.mode == 0 and p.ref is c) else p for p in ov["params"]]
+                elif x["kind"] == "ctor":
+                    x["params"] = [Type("obj", mode=2, ref=c) if (p.kind == "obj" and p.mode == 0 and p.ref is c) else p for p in x["params"]]
         # distinct unary/binary minus cannot both be named "operator -" in one overload set with our model: drop duplicates
         names = {}
         for x in list(c["members"]):
@@ -487,6 +510,25 @@ def build(raw, opts=None):
                     c["members"].remove(x)
                     lib.entities.remove(x)
                 names[x["name"]] = 1
+
+    # --- impl mode: every class must be constructible by its derived classes' user-provided constructors
+    if lib.impl_mode:
+        for c in lib.classes:
+            ctors = [m for m in c["members"] if m["kind"] == "ctor"]
+            for m in ctors:
+                if m["form"] == "delete":
+                    m["form"] = "user"
+                if not m["params"] and m["vis"] == "private":
+                    m["vis"] = "protected"
+                if len(m["params"]) == 1 and m["params"][0].kind == "obj" and m["params"][0].ref is c:
+                    m["explicit"] = False          # the definitions copy-initialise return values
+                    if m["vis"] not in ("public", "published"):
+                        m["vis"] = "public"
+            if ctors and not any(not m["params"] for m in ctors):
+                e = lib.ent(kind="ctor", cls=c, vis="public", params=[], explicit=False, form="user", file=c["file"], dv=0)
+                e["name"] = c["name"]
+                e["pnames"] = []
+                c["members"].append(e)
 
     # --- file placement must respect completeness: a file is included before the files of higher rank
     for c in lib.classes:
@@ -556,7 +598,10 @@ def _sigs(lib, rawsigs, rtype, ent):
         if any(k in used for k in keys):
             continue
         used.update(keys)
-        out.append({"ov": len(out), "params": params, "pnames": ["a%d" % i for i in range(len(params))], "defaults": defaults, "ret": ret})
+        ovd = {"ov": len(out), "params": params, "pnames": ["a%d" % i for i in range(len(params))], "defaults": defaults, "ret": ret}
+        if lib.impl_mode:
+            impl_normalise_sig(ovd, None if ent.get("static") else ent.get("cls"))
+        out.append(ovd)
         if ndef:
             lib.features.add("api.default")
     if len(out) > 1:
@@ -595,7 +640,7 @@ def _sig_text(name, ov, with_defaults=True):
 
 
 def _render(lib, opts):
-    pre = '#include <verif_prelude.h>\n#include <string>\n'
+    pre = '#include <verif_prelude.h>\n#include <verif_rt.h>\n#include <string>\n'
     per_file = {f: [] for f in FILES}
     fwd = []
     for c in lib.classes:
@@ -670,7 +715,7 @@ def _render(lib, opts):
             elif k == "seq":
                 lines.append("  MAKE_SEQ(%s, %s, %s);" % (m["name"], m["num"]["name"], m["get"]["name"]))
         # every class gets a private tag word used by the instrumentation
-        lines.append("public:\n  int vf_tag = 0;\n  long vf_acc = 0;")
+        lines.append("#ifndef CPPPARSER\npublic:\n  VfLife vf_life;\n  long vf_acc = 0;\n#endif")
         lines.append("};")
         if lib.ns:
             lines.append("}")
@@ -732,3 +777,183 @@ def _render(lib, opts):
     lib.cmd_headers = [main]
     lib.search = ["-Iincdir", "-Ssysdir"]
     lib.gxx_inc = ["-I", ".", "-I", "incdir", "-I", "sysdir", "-I", "pkg"]
+
+
+# ---- instrumented implementation (C01 / C02 / C03) -------------------------------------------------------------------
+
+def impl_normalise_sig(ov, cls):
+    """in 'impl' mode a function can only return an object it has at hand: *this or one of its parameters"""
+    r = ov["ret"]
+    if r.kind == "obj":
+        ok = (cls is not None and r.ref is cls) or any(p.kind == "obj" and p.ref is r.ref for p in ov["params"])
+        if r.mode == 0 and (r.ref.get("abstract") or r.ref.get("no_copy")):
+            ok = False
+        if not ok:
+            ov["ret"] = Type("prim", "int")
+
+
+def _vexpr(t, name):
+    """canonical text expression of a value of type t held in variable `name`"""
+    if t.kind == "prim":
+        return "vf_v(%s)" % name
+    if t.kind == "enum":
+        return "vf_e(%s)" % name
+    if t.kind in ("cstr", "str"):
+        return "vf_v(%s)" % name
+    if t.kind == "obj":
+        return "vf_o(%s%s)" % ("" if t.mode in (3, 4) else "&", name)
+    return '""'
+
+
+def _nexpr(t, name, i):
+    if t.kind == "prim":
+        return "%d * vf_num(%s)" % (i + 1, name)
+    if t.kind == "enum":
+        return "%d * (long long)%s" % (i + 1, name)
+    if t.kind in ("cstr", "str"):
+        return "%d * vf_len(%s)" % (i + 1, name)
+    if t.kind == "obj":
+        if t.mode in (3, 4):
+            return "(%s ? %d * (long long)%s->vf_life.tag : 0)" % (name, i + 1, name)
+        return "%d * (long long)%s.vf_life.tag" % (i + 1, name)
+    return "0"
+
+
+def _ancestors(c):
+    out = []
+    for b in c["bases"]:
+        if b["c"] not in out:
+            out.append(b["c"])
+        for a in _ancestors(b["c"]):
+            if a not in out:
+                out.append(a)
+    return out
+
+
+def _body(ent, ov, cls, label, is_method, const):
+    """body statements for a callable; label is the trace tag"""
+    L = []
+    terms = [_nexpr(p, n, i) for i, (p, n) in enumerate(zip(ov["params"], ov["pnames"]))]
+    if is_method:
+        terms.append("(long long)vf_acc")
+    L.append("  long long vf_sum = %d%s;" % (ent["id"] % 97, "".join(" + " + t for t in terms)))
+    r = ov["ret"]
+    args = " + \",\" + ".join(_vexpr(p, n) for p, n in zip(ov["params"], ov["pnames"])) or '""'
+    this = 'vf_o(this)' if is_method else '"-"'
+    pre = '  std::string vf_line = std::string("CALL %s this=") + %s + " args=[" + %s + "] -> ";' % (label, this, args)
+    L.append(pre)
+    if is_method and not const:
+        L.append("  vf_acc += vf_sum % 1000;")
+    if r.kind == "void":
+        L.append('  vf_emit(vf_line + "void");')
+        return L
+    if r.kind == "prim":
+        if r.name == "bool":
+            L.append("  bool vf_r = (vf_sum & 1) != 0;")
+        elif r.name in ("float", "double"):
+            L.append("  %s vf_r = (%s)(vf_sum %% 4096) * 0.5 + 0.25;" % (r.name, r.name))
+        else:
+            L.append("  %s vf_r = (%s)(vf_sum * 2654435761LL + 12345);" % (r.name, r.name))
+        L.append("  vf_emit(vf_line + vf_v(vf_r));")
+        L.append("  return vf_r;")
+    elif r.kind == "enum":
+        vals = r.ref["values"]
+        q = r.ref["value_qual"]
+        L.append("  static const ::%s vf_vals[] = { %s };" % (r.ref["qname"], ", ".join("::" + q + n for n, _ in vals)))
+        L.append("  ::%s vf_r = vf_vals[(unsigned long long)vf_sum %% %d];" % (r.ref["qname"], len(vals)))
+        L.append("  vf_emit(vf_line + vf_e(vf_r));")
+        L.append("  return vf_r;")
+    elif r.kind in ("cstr", "str"):
+        sargs = "".join(' + std::string(%s)' % (n if p.kind == "str" else "(%s ? %s : \"<nil>\")" % (n, n))
+                        for p, n in zip(ov["params"], ov["pnames"]) if p.kind in ("cstr", "str"))
+        if r.kind == "str" and r.mode == 0:
+            L.append('  std::string vf_r = std::string("r%d:") + std::to_string(vf_sum)%s;' % (ent["id"], sargs))
+        else:
+            L.append("  static std::string vf_r;")
+            L.append('  vf_r = std::string("r%d:") + std::to_string(vf_sum)%s;' % (ent["id"], sargs))
+        L.append("  vf_emit(vf_line + vf_v(vf_r));")
+        L.append("  return vf_r%s;" % (".c_str()" if r.kind == "cstr" else ""))
+    elif r.kind == "obj":
+        src = None
+        for p, n in zip(ov["params"], ov["pnames"]):
+            if p.kind == "obj" and p.ref is r.ref:
+                src = (n, p.mode)
+                break
+        if src is None and is_method and (cls is r.ref or r.ref in _ancestors(cls)):
+            src = ("this", 3)
+        if src is None:
+            L.append('  vf_emit(vf_line + "nil");')
+            L.append("  return nullptr;")
+            return L
+        name, mode = src
+        ptr = name if mode in (3, 4) else "&" + name
+        cast = "(::%s *)" % r.ref["qname"]
+        if r.mode == 0:
+            L.append("  vf_emit(vf_line + vf_o(%s));" % ptr)
+            L.append("  return *%s%s;" % (cast, ptr))
+        elif r.mode in (1, 2):
+            L.append("  vf_emit(vf_line + vf_o(%s));" % ptr)
+            L.append("  return *%s%s;" % (cast, ptr))
+        else:
+            L.append("  vf_emit(vf_line + vf_o(%s));" % ptr)
+            L.append("  return %s%s;" % (cast, ptr))
+    return L
+
+
+def render_impl(lib):
+    """definitions of everything the headers declare (instrumented)"""
+    L = ['#include "%s"' % lib.main, "#include <string>", ""]
+    for c in lib.classes:
+        q = c["qname"]
+        for m in c["members"]:
+            k = m["kind"]
+            if k == "method":
+                if m.get("virt") == "pure":
+                    continue
+                for ov in m["ovs"]:
+                    label = "E%d#%d" % (m["id"] if not m.get("overrides") else m["id"], ov["ov"])
+                    sig = _sig_text(m["name"], ov, with_defaults=False)
+                    L.append("%s %s::%s%s {" % (ov["ret"].cpp(), q, sig, " const" if m.get("const") else ""))
+                    L += _body(m, ov, c, label, not m.get("static"), bool(m.get("const")))
+                    L.append("}")
+            elif k == "ctor" and m["form"] == "user":
+                ov = {"params": m["params"], "pnames": m["pnames"], "defaults": [None] * len(m["params"])}
+                L.append("%s::%s {" % (q, _sig_text(c["name"], ov, with_defaults=False)))
+                args = " + \",\" + ".join(_vexpr(p, n) for p, n in zip(m["params"], m["pnames"])) or '""'
+                L.append('  vf_emit(std::string("CALL E%d#0 this=") + vf_o(this) + " args=[" + %s + "] -> ctor");' % (m["id"], args))
+                L.append("}")
+            elif k == "dtor" and m["form"] == "user":
+                L.append("%s::~%s() {" % (q, c["name"]))
+                L.append('  vf_emit(std::string("CALL E%d#0 this=") + vf_o(this) + " args=[] -> dtor");' % m["id"])
+                L.append("}")
+            elif k == "field" and m["static"]:
+                t = m["t"]
+                if m["const"]:
+                    L.append("const %s %s::%s;" % (t.cpp(), q, m["name"]))
+                elif t.kind == "prim":
+                    L.append("%s %s::%s = %s;" % (t.cpp(), q, m["name"], "true" if t.name == "bool" else "7"))
+                elif t.kind == "enum":
+                    L.append("%s %s::%s = %s%s;" % (t.cpp(), q, m["name"], t.ref["value_qual"], t.ref["values"][0][0]))
+                elif t.kind == "cstr":
+                    L.append('const char *%s::%s = "static";' % (q, m["name"]))
+                elif t.kind == "str":
+                    L.append('std::string %s::%s = "static";' % (q, m["name"]))
+                else:
+                    L.append("%s %s::%s = nullptr;" % (t.cpp(), q, m["name"]))
+    for fn in lib.funcs:
+        for ov in fn["ovs"]:
+            L.append("%s %s {" % (ov["ret"].cpp(), _sig_text(fn["name"], ov, with_defaults=False)))
+            L += _body(fn, ov, None, "E%d#%d" % (fn["id"], ov["ov"]), False, False)
+            L.append("}")
+    for g in lib.globals:
+        t = g["t"]
+        init = {"prim": "1" if t.name != "bool" else "true"}.get(t.kind) if t.kind == "prim" else None
+        if t.kind == "prim":
+            L.append("%s%s %s = %s;" % ("extern const " if g["const"] else "", t.cpp(), g["name"], "true" if t.name == "bool" else "5"))
+        elif t.kind == "enum":
+            L.append("%s%s %s = %s%s;" % ("extern const " if g["const"] else "", t.cpp(), g["name"], t.ref["value_qual"], t.ref["values"][0][0]))
+        elif t.kind == "cstr":
+            L.append('const char *%s = "global";' % g["name"])
+        else:
+            L.append("%s %s = nullptr;" % (t.cpp(), g["name"]))
+    return "\n".join(L) + "\n"
